@@ -29,7 +29,7 @@ CFG = {
                  "certified boolean oracle on every implementation output",
     "design_ref": "DESIGN.md §3.2, §4 C02, §5 #2",
     "n_quick": 1000, "n_thorough": 10000,
-    "rule": "17 fixed operation cases and 103 fixed generator cases (corner counts; every path-driven generator on collinear, one-collinear, repeated-point, closed, backtracking and axis-aligned paths; stencils of 0-3 points; triangulation of repeated, coincident, collinear and lattice point sets); generator cases (at most 260 in the quick tier): "
+    "rule": "17 fixed operation cases and 112 fixed generator cases (per-element optional fields set on some elements only; corner counts; every path-driven generator on collinear, one-collinear, repeated-point, closed, backtracking and axis-aligned paths; stencils of 0-3 points; triangulation of repeated, coincident, collinear and lattice point sets); generator cases (at most 260 in the quick tier): "
             "21 generators (UV sphere welded/unwelded, hemisphere, cube welded/quads, quad, circle, cylinder with/without "
             "caps and UVs, cone, extrude polygon/circle/line/shape/closed shape, repeat circle/line/Fibonacci of 5 base "
             "meshes, marching sphere/box/line through Field.March and the sequential/parallel canvas, Bowyer-Watson), a "
